@@ -1175,6 +1175,20 @@ nni_ctx_rele(nni_ctx *ctx)
 	// This allows our ID to be reused later, although the system
 	// tries to avoid ID reuse.
 	nni_id_remove(&ctx_ids, ctx->c_id);
+
+	// Let the protocol tear its state down while we are still on the
+	// socket's list: a socket being closed waits for that list to drain
+	// and is destroyed right afterwards, and the protocol's context
+	// teardown uses the socket's lock.  (The reference keeps the closing
+	// socket from destroying us itself.)
+	ctx->c_ref = 1;
+	nni_mtx_unlock(&sock_lk);
+	if (ctx->c_data != NULL) {
+		ctx->c_ops.ctx_fini(ctx->c_data);
+		ctx->c_data = NULL;
+	}
+	nni_mtx_lock(&sock_lk);
+	ctx->c_ref = 0;
 	nni_list_remove(&sock->s_ctxs, ctx);
 	nni_cv_wake(&sock->s_close_cv);
 	nni_mtx_unlock(&sock_lk);
